@@ -84,6 +84,7 @@ struct World {
   std::vector<RawTrace> traces;
   struct WithEv { int slot, idx; bool res; };
   std::vector<WithEv> withlog;
+  std::string with_misuse;
   int depth = 0;       // nesting depth of mock calls made by the harness (0 = top level)
   long delivered[8] = {0, 0, 0, 0, 0, 0, 0, 0};  // per reporter generation: invocations since its installation
   int callobj = 0;     // object of the call in progress
@@ -107,6 +108,11 @@ struct World {
     int mode = eop[slot].wmode[idx];
     bool r = mode == 0 ? true : mode == 1 ? false : mode == 2 ? a != 2 : a >= 1;
     withlog.push_back({slot, idx, r});
+    {  // a WITH clause is consulted only for a call whose arguments the positional matchers accept (_1 is what the clause is given)
+      const Shape& sh = g_shapes[eop[slot].shape]; int k = eop[slot].k1; bool m1 = true;
+      switch (sh.mk1) { case MK_EQ: case MK_VAL: m1 = a == k; break; case MK_LT: m1 = a < k; break; case MK_NE: m1 = a != k; break; case MK_GE: m1 = a >= k; break; default: break; }
+      if (sh.fn != Z0 && !m1 && with_misuse.empty()) with_misuse = "WITH clause " + std::to_string(idx) + " of slot " + std::to_string(slot) + " was consulted although the parameter matcher rejects the argument";
+    }
     return r;
   }
   void hs(int slot, int idx, int a);
@@ -125,7 +131,7 @@ struct World {
   Outcome apply(const Op& op);
   void install_reporter(int gen, bool pair, std::string* prev_desc);
   void observe(Outcome& o);
-  void reset_logs() { raw.clear(); oks.clear(); clog.clear(); traces.clear(); withlog.clear(); }
+  void reset_logs() { raw.clear(); oks.clear(); clog.clear(); traces.clear(); withlog.clear(); with_misuse.clear(); }
   std::string check_with_passes() const;  // C08: every WITH evaluation pass is a declaration-order prefix ending at the first false
 };
 
